@@ -10,6 +10,7 @@ import (
 	"reflect"
 	"strings"
 	"unicode/utf8"
+	"unsafe"
 
 	gojson "github.com/goccy/go-json"
 
@@ -485,6 +486,9 @@ func init() {
 				if c.Idx%256 == 6 {
 					c09BigSkips(c)
 				}
+				if c.Idx%256 == 22 {
+					c09Prefilled(c)
+				}
 			case fam < 5:
 				// documents x destination types x chunkings
 				var doc []byte
@@ -708,6 +712,135 @@ func bsU(hex string) string { return "\\" + "u" + hex }
 // c09BigSkips: skipped values holding more containers than the nesting limit counts levels
 // (a depth counter that is not decremented overflows there), as unknown members, RawMessage and
 // Unmarshaler members and as elements beyond a fixed-size array, in a few chunkings.
+// c09Prefilled: destinations that are not zero - interfaces that already hold a pointer (encoding/json
+// and the buffer decoder decode into the pointee, null clears the interface), pointers that already
+// point somewhere, slices with elements. Every document is decoded with Unmarshal and through a
+// Decoder with every single cut and with one-byte reads, each into a freshly pre-filled
+// destination; value, verdict and "still the caller's pointer" must agree.
+func c09Prefilled(c *rt.Ctx) {
+	type in struct {
+		A int
+		S string
+	}
+	type holder struct {
+		X int
+		I any
+		P *in
+		L []in
+		Z string
+	}
+	type made struct {
+		dst  any
+		ptrs []unsafe.Pointer // what the caller put in
+		look func() []any     // the interface / pointer members to compare with ptrs
+	}
+	mks := []func() made{
+		func() made {
+			n := 7
+			h := &holder{I: &n, P: &in{A: 1, S: "p"}, L: []in{{A: 1}, {A: 2}, {A: 3}}}
+			return made{h, []unsafe.Pointer{unsafe.Pointer(&n), unsafe.Pointer(h.P)}, func() []any { return []any{h.I, h.P} }}
+		},
+		func() made {
+			v := &in{A: 3, S: "s"}
+			h := &holder{I: v}
+			return made{h, []unsafe.Pointer{unsafe.Pointer(v), nil}, func() []any { return []any{h.I, h.P} }}
+		},
+		func() made {
+			sl := []int{1, 2}
+			h := &holder{I: &sl}
+			return made{h, []unsafe.Pointer{unsafe.Pointer(&sl), nil}, func() []any { return []any{h.I, h.P} }}
+		},
+		func() made {
+			v := &in{A: 5}
+			var x any = v
+			return made{&x, []unsafe.Pointer{unsafe.Pointer(v)}, func() []any { return []any{x} }}
+		},
+		func() made {
+			v := &in{A: 9}
+			l := []any{v, nil, "s"}
+			return made{&l, []unsafe.Pointer{unsafe.Pointer(v)}, func() []any {
+				if len(l) == 0 {
+					return []any{nil}
+				}
+				return []any{l[0]}
+			}}
+		},
+	}
+	vals := []string{"null", "5", `{"A":2,"S":"t"}`, `"str"`, `[3,4,5]`, "true"}
+	wss := []string{"", " ", "\n\t "}
+	render := func(m made, err error) string {
+		if err != nil {
+			// what a failed decode leaves behind is not compared (as for the other families)
+			return "err=true"
+		}
+		b, _ := stdjson.Marshal(m.dst)
+		out := string(b) + "|err=" + fmt.Sprint(err != nil)
+		for i, x := range m.look() {
+			same := false
+			if rv := reflect.ValueOf(x); rv.IsValid() && rv.Kind() == reflect.Ptr && !rv.IsNil() && i < len(m.ptrs) {
+				same = rv.UnsafePointer() == m.ptrs[i]
+			}
+			out += fmt.Sprintf("|keeps-caller-pointer[%d]=%v", i, same)
+		}
+		return out
+	}
+	sub := 0
+	for mi, mk := range mks {
+		for _, val := range vals {
+			for _, ws := range wss {
+				var doc string
+				switch {
+				case mi <= 2:
+					doc = `{"X":1,"I":` + ws + val + ws + `,"P":` + ws + val + `,"L":[{"A":9}],"Z":"z"}`
+				case mi == 3:
+					doc = ws + val + ws
+				default:
+					doc = `[` + ws + val + ws + `,` + val + `]`
+				}
+				sub++
+				if !c.Cur(sub, "shapes=core\npre-filled destination "+fmt.Sprint(mi)+"\ndoc: "+doc) {
+					continue
+				}
+				bm := mk()
+				var berr error
+				if pan, _, _ := rt.Guard(func() { berr = gojson.Unmarshal([]byte(doc), bm.dst) }); pan {
+					c.Obs("panics_seen_judged_by_C06", 1)
+					continue
+				}
+				want := render(bm, berr)
+				var cutsList [][]int
+				for p := 1; p < len(doc); p++ {
+					cutsList = append(cutsList, []int{p})
+				}
+				cutsList = append(cutsList, nil, fixedCuts(len(doc), 1))
+				for _, cuts := range cutsList {
+					sm := mk()
+					var serr error
+					pan, _, _ := rt.Guard(func() {
+						serr = gojson.NewDecoder(&chunkReader{data: []byte(doc), cuts: cuts, failAt: -1}).Decode(sm.dst)
+					})
+					c.Eval(1)
+					if pan {
+						c.Obs("panics_seen_judged_by_C06", 1)
+						continue
+					}
+					if got := render(sm, serr); got != want {
+						ctx := "value"
+						if (serr != nil) != (berr != nil) {
+							ctx = "verdict"
+						}
+						c.Violate(rt.Violation{Monitor: "stream-vs-buffer", Entry: "prefilled", Kind: "prefilled-destination-differs", Ctx: ctx + ":" + strings.Trim(val[:1], "\"") + ":dst" + fmt.Sprint(mi),
+							Detail: fmt.Sprintf("doc %s cuts %v: Decoder gives %s, Unmarshal gives %s", rt.Q([]byte(doc)), cuts, got, want), Sub: sub})
+						break
+					}
+				}
+				c.Obs("prefilled_documents", 1)
+				c.NonTrivial("prefilled", fmt.Sprint(mi), doc)
+			}
+		}
+	}
+}
+
 func c09BigSkips(c *rt.Ctx) {
 	rep := func(unit string, n int) string { return strings.TrimSuffix(strings.Repeat(unit+",", n), ",") }
 	vals := []string{"[" + rep("{}", 10050) + "]", "[" + rep("[]", 10050) + "]", "[" + rep(`{"k":[{}]}`, 5100) + "]", "{" + rep(`"k":[[]]`, 10050) + "}", "{" + rep(`"k":{"x":{}}`, 5100) + "}", "[" + rep(`["a","]"]`, 10050) + "]"}
